@@ -57,11 +57,18 @@ func (s *scriptedStrategy) Report(c <-chan *asset.Snapshot) *helper.Report {
 	return r
 }
 
+// taggedStrategy delegates to the wrapped strategy and carries its position in the run's list.
+type taggedStrategy struct {
+	strategy.Strategy
+	idx int
+}
+
 type btEvent struct {
 	Seq   int64
 	Kind  string // begin asset-begin write asset-end end
 	Asset string
 	Strat string
+	Inst  strategy.Strategy
 	Acts  []strategy.Action
 	Outs  []float64
 	NSnap int
@@ -89,7 +96,7 @@ func (r *RecordingReport) AssetBegin(name string, st []strategy.Strategy) error 
 	return nil
 }
 func (r *RecordingReport) Write(name string, cs strategy.Strategy, snaps <-chan *asset.Snapshot, actions <-chan strategy.Action, outcomes <-chan float64) error {
-	e := btEvent{Kind: "write", Asset: name, Strat: cs.Name()}
+	e := btEvent{Kind: "write", Asset: name, Strat: cs.Name(), Inst: cs}
 	// three independent readers, as a report is free to consume the streams in any order
 	done := make(chan struct{}, 2)
 	simrt.GoKind("stub", func() {
@@ -176,10 +183,7 @@ func (c13) Gen(rng *rand.Rand, tier string, k int) *Case {
 	used := map[string]bool{}
 	for i := 0; i < ns; i++ {
 		e := c13Strats[rng.Intn(len(c13Strats))]
-		if e != "scripted" && used[e] {
-			e = "scripted" // strategy names must be distinct within a run
-		}
-		used[e] = true
+		used[e] = true // the same strategy type may appear twice (differently configured, possibly under the same name)
 		s := SubSpec{Entity: e}
 		if e == "scripted" {
 			s.Cfg = []int{usedK}
@@ -324,8 +328,9 @@ func (c13) Run(c *Case, st *Stats) []Violation {
 			}
 			fr := newFaultRepo(repo)
 			fr.Order = c.Perm
-			for _, sp := range c.Subs {
-				strategies = append(strategies, makeBtStrategy(sp))
+			for i, sp := range c.Subs {
+				// tagged wrapper: instances of zero-size strategy types are not distinguishable by address
+				strategies = append(strategies, &taggedStrategy{Strategy: makeBtStrategy(sp), idx: i})
 			}
 			var report backtest.Report
 			switch c.Impl {
@@ -404,7 +409,7 @@ func (c13) Run(c *Case, st *Stats) []Violation {
 			continue
 		}
 		for i, sp := range c.Subs {
-			key := n + "|" + strategies[i].Name()
+			key := fmt.Sprintf("%s|#%d", n, i)
 			r := runPipe(PipeOpts{SimOpts: SimOpts{Policy: simrt.PolicySpec{Name: "fifo"}}}, [][]*asset.Snapshot{windowed[n]},
 				func(in []<-chan *asset.Snapshot) []<-chan F {
 					a, o := strategy.ComputeWithOutcome(makeBtStrategy(sp), in[0])
@@ -424,6 +429,12 @@ func (c13) Run(c *Case, st *Stats) []Violation {
 			}
 			ref[key] = d
 		}
+	}
+	idxOf := func(inst strategy.Strategy) int {
+		if t, ok := inst.(*taggedStrategy); ok {
+			return t.idx
+		}
+		return -1
 	}
 	lastOf := func(d direct) (strategy.Action, float64) {
 		var a strategy.Action
@@ -466,7 +477,7 @@ func (c13) Run(c *Case, st *Stats) []Violation {
 					add("protocol-order", regime, fmt.Sprintf("Write for %s/%s outside AssetBegin..AssetEnd", e.Asset, e.Strat))
 					return vs
 				}
-				key := e.Asset + "|" + e.Strat
+				key := fmt.Sprintf("%s|#%d", e.Asset, idxOf(e.Inst))
 				writes[key]++
 				d, ok := ref[key]
 				if !ok {
@@ -512,7 +523,7 @@ func (c13) Run(c *Case, st *Stats) []Violation {
 		got := map[string]*backtest.DataStrategyResult{}
 		for a, rs := range data.Results {
 			for _, r := range rs {
-				key := a + "|" + r.Strategy.Name()
+				key := fmt.Sprintf("%s|#%d", a, idxOf(r.Strategy))
 				if got[key] != nil {
 					add("pair-count", regime, "pair "+key+" appears twice in DataReport.Results")
 					return vs
@@ -555,23 +566,33 @@ func (c13) Run(c *Case, st *Stats) []Violation {
 				add("pair-count", regime, fmt.Sprintf("%s.html lists %d strategies, the run has %d", n, len(rows), len(c.Subs)))
 				return vs
 			}
-			seen := map[string]bool{}
+			// strategies may share a name: compare the rows with the expected (name, outcome)
+			// entries as multisets
+			var want, gotRows []string
+			for i := range c.Subs {
+				_, o := lastOf(ref[fmt.Sprintf("%s|#%d", n, i)])
+				w := fmt.Sprintf("%.2f", o*100)
+				if w == "-0.00" {
+					w = "0.00"
+				}
+				want = append(want, strategies[i].Name()+" "+w)
+			}
 			for i, r := range rows {
-				d, ok := ref[n+"|"+r.Key]
-				if !ok || seen[r.Key] {
-					add("pair-count", regime, fmt.Sprintf("%s.html lists %q (unknown or twice)", n, r.Key))
-					return vs
+				g := fmt.Sprintf("%.2f", r.Outcome)
+				if g == "-0.00" {
+					g = "0.00"
 				}
-				seen[r.Key] = true
-				_, o := lastOf(d)
-				if want := fmt.Sprintf("%.2f", o*100); want != fmt.Sprintf("%.2f", r.Outcome) && !(want == "-0.00" && r.Outcome == 0) {
-					add("result-differs-from-direct-evaluation", regime, fmt.Sprintf("%s.html shows %.2f%% for %s, direct evaluation gives %s%%", n, r.Outcome, r.Key, want))
-					return vs
-				}
+				gotRows = append(gotRows, r.Key+" "+g)
 				if i > 0 && r.Outcome > rows[i-1].Outcome {
 					add("ranking-order", regime, fmt.Sprintf("%s.html lists %s (%.2f%%) after %s (%.2f%%)", n, r.Key, r.Outcome, rows[i-1].Key, rows[i-1].Outcome))
 					return vs
 				}
+			}
+			sort.Strings(want)
+			sort.Strings(gotRows)
+			if fmt.Sprint(want) != fmt.Sprint(gotRows) {
+				add("result-differs-from-direct-evaluation", regime, fmt.Sprintf("%s.html lists %v, direct evaluation gives %v", n, gotRows, want))
+				return vs
 			}
 			best[n] = rows[0].Outcome
 			if c.Impl == "html-reports" {
